@@ -1180,20 +1180,135 @@ def _nf_comprehension_loops(node, resolves):
     return changed
 
 
+def _record_fields(cls):
+    """{field: constructor parameter position / name} for a class of which every object keeps, for life, the
+    constructor arguments it was built with under these field names: an explicit __init__ that stores plain parameters
+    (`self.f = p`, unconditionally, once), or the generated one of a dataclass / NamedTuple (fields in declaration
+    order).  A field any method stores to again is left out.  None: the class is not of this kind."""
+    node = cls.node
+    deco = {A.dotted(d.func if isinstance(d, ast.Call) else d) for d in node.decorator_list}
+    named_tuple = any(b.split(".")[-1] == "NamedTuple" for b in cls.base_exprs)
+    if (cls.base_exprs and not named_tuple) or (deco - {"dataclass", "dataclasses.dataclass"}):
+        return None
+    fields = {}
+    init = cls.methods.get("__init__")
+    if init is not None:
+        a = init.node.args
+        if a.vararg or a.kwarg or deco or named_tuple:
+            return None
+        params = [x.arg for x in a.posonlyargs + a.args][1:]
+        kwonly = [x.arg for x in a.kwonlyargs]
+        seen = {}
+        for st in init.node.body:
+            if isinstance(st, ast.Assign) and len(st.targets) == 1 and isinstance(st.targets[0], ast.Attribute) and A.dotted(st.targets[0].value) == "self" \
+                    and isinstance(st.value, ast.Name) and st.value.id in params + kwonly:
+                f = st.targets[0].attr
+                seen[f] = seen.get(f, 0) + 1
+                fields[f] = (params.index(st.value.id) if st.value.id in params else None, st.value.id)
+        # the parameter itself is not rebound in the constructor
+        rebound = {n.id for n in ast.walk(init.node) if isinstance(n, ast.Name) and isinstance(n.ctx, (ast.Store, ast.Del))}
+        fields = {f: v for f, v in fields.items() if seen[f] == 1 and v[1] not in rebound}
+    elif deco or named_tuple:
+        pos = 0
+        for st in node.body:
+            if isinstance(st, ast.AnnAssign) and isinstance(st.target, ast.Name):
+                ann = ast.unparse(st.annotation)
+                if "ClassVar" in ann:
+                    continue
+                if isinstance(st.value, ast.Call) and A.call_attr(st.value) == "field" and any(k.arg in ("init", "kw_only") for k in st.value.keywords):
+                    return None
+                fields[st.target.id] = (pos, st.target.id)
+                pos += 1
+        if any(isinstance(d, ast.Call) and any(k.arg in ("init", "kw_only") for k in d.keywords) for d in node.decorator_list):
+            return None
+    else:
+        return None
+    # stored to again by a method (or by anything reached through `self` in a way that is not plainly a read)
+    for m in cls.methods.values():
+        for n in ast.walk(m.node):
+            if isinstance(n, ast.Attribute) and isinstance(n.ctx, (ast.Store, ast.Del)) and A.dotted(n.value) == "self" and m is not init:
+                fields.pop(n.attr, None)
+            if isinstance(n, ast.Call) and isinstance(n.func, ast.Name) and n.func.id in ("setattr", "delattr") or \
+                    (isinstance(n, ast.Attribute) and n.attr == "__dict__"):
+                return None
+    return fields
+
+
+def _nf_record_fields(fi, node):
+    """`obj.f` for a local `obj = C(..., x, ...)` (bound once, outside any loop) of a record class of the same module
+    whose field f is the constructor argument x for life (see _record_fields), x being a name that is bound once in
+    this function and `obj.f` never being stored to here: the read is written as `x`."""
+    st = _stores(node)
+    cands = {}
+    for blk in _blocks_of(node):
+        for s_ in blk:
+            if not (isinstance(s_, ast.Assign) and len(s_.targets) == 1 and isinstance(s_.targets[0], ast.Name) and st.get(s_.targets[0].id) == 1
+                    and isinstance(s_.value, ast.Call) and isinstance(s_.value.func, ast.Name)):
+                continue
+            c = s_.value
+            cls = fi.module.classes.get(c.func.id)
+            if cls is None or any(isinstance(a, ast.Starred) for a in c.args) or any(k.arg is None for k in c.keywords):
+                continue
+            fields = _record_fields(cls)
+            if not fields:
+                continue
+            sub = {}
+            for f, (pos, name) in fields.items():
+                v = A.arg_or_kw(c, pos, name) if pos is not None else A.kwarg(c, name)
+                if isinstance(v, ast.Name) and st.get(v.id) == 1:
+                    sub[f] = v.id
+            if sub:
+                cands[s_.targets[0].id] = (s_, sub)
+    if not cands:
+        return False
+    # not under a loop (the argument name could be rebound between the construction and a read of the field), not
+    # captured by a nested function, the field not stored to through the local
+    parents = {}
+    for n in ast.walk(node):
+        for ch in ast.iter_child_nodes(n):
+            parents[id(ch)] = n
+    for obj in list(cands):
+        s_, sub = cands[obj]
+        x = s_
+        while id(x) in parents and x is not node:
+            x = parents[id(x)]
+            if isinstance(x, (ast.For, ast.While, ast.AsyncFor)) or (isinstance(x, _FUNCS + (ast.Lambda, ast.ClassDef)) and x is not node):
+                cands.pop(obj, None)
+                break
+    for n in ast.walk(node):
+        if isinstance(n, ast.Attribute) and isinstance(n.ctx, (ast.Store, ast.Del)) and isinstance(n.value, ast.Name) and n.value.id in cands:
+            cands[n.value.id][1].pop(n.attr, None)
+        if isinstance(n, ast.Call) and isinstance(n.func, ast.Name) and n.func.id in ("setattr", "delattr") and n.args and isinstance(n.args[0], ast.Name):
+            cands.pop(n.args[0].id, None)
+
+    class T(ast.NodeTransformer):
+        changed = False
+
+        def visit_Attribute(self, n):
+            self.generic_visit(n)
+            if isinstance(n.ctx, ast.Load) and isinstance(n.value, ast.Name) and n.value.id in cands and n.attr in cands[n.value.id][1]:
+                T.changed = True
+                return ast.copy_location(ast.Name(id=cands[n.value.id][1][n.attr], ctx=ast.Load()), n)
+            return n
+    T().visit(node)
+    return T.changed
+
+
 def normal_form(ck, fi):
     """`fi` as the rules read it: maps, lambdas, constant dispatch tables and comprehensions over helpers written out,
     the helpers that this exposes inlined like any other new helper, canonical form re-applied.  The function itself
     when none of these occurs in it (always so on the reference tree)."""
     cache = ck.__dict__.setdefault("_normal_forms", {})
-    if fi.qual in cache:
-        return cache[fi.qual]
+    if fi.qual in cache and cache[fi.qual][0] is fi:
+        return cache[fi.qual][1]
     from ..inline import Inliner, _all_names
     from ..loader import FuncInfo
     from ..canon import canonicalise
     node = copy.deepcopy(fi.node)
     out = FuncInfo(fi.module, node, fi.qual, fi.cls, fi.parent)
     fi.module._index_nested(out)
-    changed = _nf_maps(node)
+    changed = _nf_record_fields(fi, node)
+    changed = _nf_maps(node) or changed
     changed = _nf_lambdas(node) or changed
     changed = _nf_dispatch(node) or changed
     inl = None
@@ -1229,16 +1344,16 @@ def normal_form(ck, fi):
             # (the variables such a closure shares with this function keep their names)
             inl.rewrite_block_owner(node, out, _all_names(node) - shared, 0)
         if any(isinstance(c, ast.Call) and isinstance(c.func, ast.Name) and c.func.id in stripped for c in _own_nodes(node)):
-            cache[fi.qual] = fi     # a call of such a closure is left: the function stays as it is
+            cache[fi.qual] = (fi, fi)     # a call of such a closure is left: the function stays as it is
             return fi
     if not changed:
-        cache[fi.qual] = fi
+        cache[fi.qual] = (fi, fi)
         return fi
     ast.fix_missing_locations(node)
     canonicalise(ast.Module(body=[node], type_ignores=[]))
     out.nested = {}
     fi.module._index_nested(out)
-    cache[fi.qual] = out
+    cache[fi.qual] = (fi, out)
     return out
 
 
